@@ -2,6 +2,8 @@
 # seedcheck.sh <patch.diff> <Cxx> [Cyy ...] — apply a seeded change to /repo, run the named quick checks, undo it.
 # Prints one line per check: <id> exit=<code> <first VIOLATION / KNOWN line>
 PATCH=$(readlink -f "$1"); shift
+# /repo is shared: hold the lock while a seeded change is applied
+exec 9>/tmp/seed/repo.lock; flock 9
 cd /repo || exit 2
 if ! git apply --check "$PATCH" 2>/dev/null; then
   if ! git apply -3 --check "$PATCH" 2>/dev/null; then echo "PATCH-DOES-NOT-APPLY $PATCH"; exit 3; fi
